@@ -26,6 +26,7 @@ fn main() {
         "l1" => l1::main(rest),
         "replay" => replay::main(rest),
         "record" => record::main(rest),
+        "reexec" => record::reexec(rest),
         "c08sweep" => c08::main(rest),
         "c01sweep" => c01::main(rest),
         "session" => session::main(rest),
